@@ -125,8 +125,10 @@ class ModbusSim(PeerBase):
         exc = rc.tcp_exception if kind == "tcp" else rc.rtu_exception
         ok = rc.tcp_response if kind == "tcp" else rc.rtu_response
         k, reg = req["kind"], req["reg"]
-        code = self.exc_map.get((rc.fc_of(req), reg)) or self.exc_map.get((rc.fc_of(req), reg, req.get("count")))
-        if code:
+        code = self.exc_map.get((rc.fc_of(req), reg))
+        if code is None:
+            code = self.exc_map.get((rc.fc_of(req), reg, req.get("count")))
+        if code is not None:        # (exception code 0 is a code like any other)
             return exc(req, code)
         if k == "read":
             cnt = req["count"]
